@@ -92,6 +92,27 @@ pub fn note_alloc(kind: u32, ptr: usize, size: usize) {
             }
         }
     }
+    if have_exec() {
+        // which dropped atomics lie in memory that is gone (must not allocate here)
+        let e = exec();
+        if kind == 1 && !e.dead_locs.is_empty() {
+            let mut i = 0;
+            while i < e.dead_locs.len() {
+                let a = e.dead_locs[i];
+                if a >= ptr && a < ptr + size {
+                    e.dead_locs.swap_remove(i);
+                    if e.freed_locs.len() < e.freed_locs.capacity() {
+                        e.freed_locs.push(a);
+                    }
+                } else {
+                    i += 1;
+                }
+            }
+        } else if kind == 0 && !(e.freed_locs.is_empty() && e.dead_locs.is_empty()) {
+            e.freed_locs.retain(|a| !(*a >= ptr && *a < ptr + size));
+            e.dead_locs.retain(|a| !(*a >= ptr && *a < ptr + size));
+        }
+    }
     let d = DEPTH.try_with(|d| d.get()).unwrap_or(0);
     let ie = IN_ENGINE.try_with(|d| d.get()).unwrap_or(true);
     if kind == 1 && !ie && have_exec() {
@@ -376,6 +397,9 @@ pub struct Exec {
     pub switches: u64,
     pub signals_delivered: u64,
     pub stale_taken: u64,
+    /// shim atomics that have been dropped / dropped and their heap block released (no reallocation since)
+    pub dead_locs: Vec<usize>,
+    pub freed_locs: Vec<usize>,
     /// how often the write barrier took its second generation switch (event `barrier_reflip`)
     pub reflips: u64,
     pub interleaved: bool,
@@ -526,6 +550,8 @@ impl Exec {
             switches: 0,
             signals_delivered: 0,
             stale_taken: 0,
+            dead_locs: Vec::with_capacity(1024),
+            freed_locs: Vec::with_capacity(1024),
             reflips: 0,
             interleaved: false,
             race_check: true,
@@ -735,6 +761,11 @@ fn mask(width: u8) -> u64 {
 // ---------------------------------------------------------------------------------------------
 // Scheduling
 
+/// The pattern queued deliveries carry in bytes 32..48 of their record.
+pub fn payload_pattern(v: u64) -> u64 {
+    v.wrapping_mul(0x9e3779b97f4a7c15) ^ 0xa5a5_5a5a_c3c3_3c3c
+}
+
 fn do_raise(t: usize, sig: i32) {
     do_raise_with(t, sig, None)
 }
@@ -770,11 +801,19 @@ fn do_raise_with(t: usize, sig: i32, value: Option<usize>) {
                 libc::raise(sig);
             }
             Some(v) => {
-                let sv = libc::sigval { sival_ptr: v as *mut libc::c_void };
-                extern "C" {
-                    fn pthread_sigqueue(t: libc::pthread_t, sig: libc::c_int, v: libc::sigval) -> libc::c_int;
-                }
-                pthread_sigqueue(libc::pthread_self(), sig, sv);
+                // what pthread_sigqueue does (rt_tgsigqueueinfo to the calling thread, SI_QUEUE, own pid / uid,
+                // the payload) - plus a pattern in the 16 bytes of the record that this layout leaves unused
+                // but the kernel still carries: a copy of the record that is cut short shows
+                let mut info: [u64; 16] = [0; 16];
+                let bytes = info.as_mut_ptr() as *mut u8;
+                *(bytes as *mut i32) = sig;
+                *(bytes.add(8) as *mut i32) = -1; // SI_QUEUE
+                *(bytes.add(16) as *mut i32) = libc::getpid();
+                *(bytes.add(20) as *mut u32) = libc::getuid();
+                *(bytes.add(24) as *mut u64) = v as u64;
+                *(bytes.add(32) as *mut u64) = payload_pattern(v as u64);
+                *(bytes.add(40) as *mut u64) = !payload_pattern(v as u64);
+                libc::syscall(libc::SYS_rt_tgsigqueueinfo, libc::getpid(), libc::syscall(libc::SYS_gettid) as libc::pid_t, sig, info.as_ptr());
             }
         }
     }
@@ -1097,6 +1136,9 @@ fn hook_pre(op: &shim::Op) -> u32 {
         }
     }
     let e = exec();
+    if !e.freed_locs.is_empty() && e.freed_locs.contains(&op.addr) {
+        fail(format!("use after free: an atomic operation at {}:{} works on a location that has been dropped and whose heap block has been released", op.file, op.line));
+    }
     touch_loc(e, op.addr, op.width);
     if op.kind == shim::OP_CAS_WEAK
         && e.phase == Phase::Parallel
@@ -1281,7 +1323,29 @@ fn hook_loc_drop(addr: usize, _width: u8) {
         return;
     }
     let _g = EngineGuard::enter();
-    exec().locs.remove(&addr);
+    let e = exec();
+    e.locs.remove(&addr);
+    if e.dead_locs.len() < e.dead_locs.capacity() {
+        e.dead_locs.push(addr);
+    }
+    // For the private-location reduction, destroying a location is an access to it: a location one
+    // thread operates on and another one destroys is shared (its operations are scheduling points).
+    if e.opts.reduce && e.phase == Phase::Parallel {
+        if let Some(k) = e.key_of(addr) {
+            let ident = ((t as u16) << 1) | (handler_depth() > 0) as u16;
+            match e.accessors.get(&k) {
+                None => {
+                    e.accessors.insert(k, ident);
+                }
+                Some(&i) if i != ident => {
+                    if !is_shared(k) && !e.new_shared.contains(&k) {
+                        e.new_shared.push(k);
+                    }
+                }
+                _ => {}
+            }
+        }
+    }
 }
 
 fn hook_mutex_pre_lock(addr: usize, file: &'static str, line: u32) {
@@ -1386,6 +1450,17 @@ fn hook_sched_point(tag: &'static str, a: u64) {
         // system call, fine inside a handler frame). Recorded without abandoning the execution.
         if unsafe { libc::fcntl(a as i32, libc::F_GETFD) } == -1 && e.violation.is_none() {
             e.violation = Some(format!("C13: a delivery writes its wake byte to descriptor number {} which is closed at that moment (the write end was closed while an action that uses it is still registered)", a));
+        }
+        // ... and a pipe that is full must be in non-blocking mode by now (sockets are written with MSG_DONTWAIT)
+        let would_block = unsafe {
+            let mut st: libc::stat = std::mem::zeroed();
+            let fifo = libc::fstat(a as i32, &mut st) == 0 && (st.st_mode & libc::S_IFMT) == libc::S_IFIFO;
+            let blocking = libc::fcntl(a as i32, libc::F_GETFL) & libc::O_NONBLOCK == 0;
+            let mut p = libc::pollfd { fd: a as i32, events: libc::POLLOUT, revents: 0 };
+            fifo && blocking && libc::poll(&mut p, 1, 0) == 0
+        };
+        if would_block {
+            fail("C13: a delivery is about to write its wake byte into a full pipe that is still in blocking mode: the handler would block".to_string());
         }
     }
     if tag == "cell_access" {
